@@ -1,9 +1,99 @@
 import UF.Driver.Decode
+import UF.Model.Prog
 /- Ops of work group F (see notes/AGENT_GUIDE.md). Return `none` for ops of other groups. -/
 namespace UF.Ops
+open UF.Prog
+
+/-- One abstract query of a trace (see harness/op_c13_common.go `gfEntry`). -/
+structure FEntry where
+  pool : Bool
+  cands : List Int
+  matching : List Nat
+  resident : List Nat
+  obsAns : Bool
+  obsSize : Bool
+
+def decIntList (w : W) : Option (List Int) := do
+  let xs ← w.list?
+  xs.mapM W.int?
+
+def decFEntry (w : W) : Option FEntry :=
+  match w with
+  | .l [p, c, m, r, oa, os] => do
+    pure { pool := ← p.bool?, cands := ← decIntList c, matching := ← m.natList?, resident := ← r.natList?,
+           obsAns := ← oa.bool?, obsSize := ← os.bool? }
+  | _ => none
+
+def decTruth (w : W) : Option (List (Int × Int × Nat)) := do
+  let xs ← w.list?
+  xs.mapM fun e => match e with
+    | .l [i, l, r] => do pure (← i.int?, ← l.int?, ← r.nat?)
+    | _ => none
+
+/-- Key of entry `k`: the request's hostname carries the entry number, so that the candidate function and
+    `matches` of the driver's `Env` are functions of the request, as in the model. -/
+def entryKey (k : Nat) : Bytes := (Nat.toDigits 10 k).map (fun c => c.toNat.toUInt8)
+
+def fEnv (truth : List (Int × Int × Nat)) (entries : List FEntry) : Env Nat :=
+  let keyed := (List.range entries.length).zip entries |>.map fun (k, e) => (entryKey k, e)
+  let find (req : Request) : Option FEntry := (keyed.find? (fun p => p.1 == req.hostname)).map (·.2)
+  { truth := fun idx => (truth.find? (fun e => e.1 == idx)).map (fun e => e.2.2)
+    listOf := fun idx => match truth.find? (fun e => e.1 == idx) with | some e => e.2.1 | none => 0
+    ruleId := id
+    etld1 := id
+    cands := fun req => match find req with | some e => e.cands | none => []
+    mtch := fun r req => match find req with
+      | some e => e.matching.contains r || e.resident.contains r
+      | none => false
+    resident := (entries.flatMap (·.resident)).eraseDups }
+
+/-- Answers are compared as sets (DESIGN.md §6): sorted, duplicates removed. -/
+def outNats (xs : List Nat) : String := "[" ++ ".".intercalate ((xs.eraseDups.mergeSort (· ≤ ·)).map toString) ++ "]"
+
+/-- `c13model` / `c19model`: replay an abstract trace sequentially on the Prog model (`runQuery`), with
+    the lists in `closed` closed before entry `closeAt` (never if negative).  Prints, for every entry,
+    `<sorted answer>:<cache size>` with `_` where the harness could not observe. -/
+def opProgModel (withSpec : Bool) (args : List W) : String :=
+  match args with
+  | [tw, cw, kw, ew] =>
+    match decTruth tw, decIntList cw, kw.int?, ew.list? with
+    | some truth, some closed, some closeAt, some ews =>
+      match ews.mapM decFEntry with
+      | none => "bad-entry"
+      | some entries =>
+        let env := fEnv truth entries
+        let go := fun (acc : State Nat × List String) (ke : Nat × FEntry) =>
+          let (k, e) := ke
+          let s := acc.1
+          let s := if (k : Int) == closeAt then { s with closed := closed ++ s.closed } else s
+          let req : Request := { hostname := entryKey k }
+          let q : Query := if e.pool then .dns { hostname := entryKey k } else .web req
+          let (s', t) := runQuery env s q
+          let a := if e.obsAns then outNats (t.answer env) else "_"
+          let z := if e.obsSize then toString s'.cache.length else "_"
+          let fin := if t.pc.isDone then "" else "!unfinished"
+          (s', (a ++ ":" ++ z ++ fin) :: acc.2)
+        let (_, outs) := ((List.range entries.length).zip entries).foldl go (({} : State Nat), [])
+        -- the stateless reference (fault-free histories only): `pureAnswer` of each query, and the cache
+        -- holds exactly the retrievable indices among all candidates seen so far
+        let specGo := fun (acc : List Int × List String) (ke : Nat × FEntry) =>
+          let (k, e) := ke
+          let q : Query := if e.pool then .dns { hostname := entryKey k } else .web { hostname := entryKey k }
+          let seen := (acc.1 ++ e.cands.filter (fun i => (env.truth i).isSome)).eraseDups
+          let a := if e.obsAns then outNats (pureAnswer env q) else "_"
+          let z := if e.obsSize then toString seen.length else "_"
+          (seen, (a ++ ":" ++ z) :: acc.2)
+        let spec := if withSpec then
+            ",".intercalate (((List.range entries.length).zip entries).foldl specGo ([], [])).2.reverse
+          else "-"
+        ",".intercalate outs.reverse ++ " " ++ spec
+    | _, _, _, _ => "bad-decode"
+  | _ => "bad-arity"
 
 def dispatchF (op : String) (args : List W) : Option String :=
-  match op, args with
-  | _, _ => none
+  match op with
+  | "c13model" => some (opProgModel true args)
+  | "c19model" => some (opProgModel false args)
+  | _ => none
 
 end UF.Ops
